@@ -5,7 +5,7 @@ prop("C16", pkg="c16", level="fault_enumeration",
           "(value, destination length) call. Non-trivial = a length strictly inside the encoding of a field at some nesting level (not on a field boundary found by walking "
           "Marshal(v) with protowire along the type descriptor; for top-level scalars 0 < len < Size); labels name the codec in which the cut lands. Distinct = FNV-64 of "
           "(type, value, flags, length). Values larger than 2000 bytes are skipped (label skipped.oversize).",
-     quick=dict(shards=16, scale=1, timeout=900),
+     quick=dict(shards=16, scale=3, timeout=900),
      thorough=dict(shards=16, scale=25, timeout=3000),
      technique="property-based testing (rapid) of values x exhaustive enumeration of destination lengths (fault enumeration over all cut points) with guard bytes",
      level_text="Fault enumeration within the sampled values: for every generated value all destination lengths 0..Size+3 were tried; len >= Size gave nil error, count == Size and "
